@@ -89,14 +89,15 @@ def ite(c, a, b):
 
 class F:
     """A double interpreted over the reals: value r (Fraction or z3 Real) and flag bad (bool or z3 Bool)."""
-    __slots__ = ("r", "bad", "inf")
+    __slots__ = ("r", "bad", "inf", "err")
 
-    def __init__(self, r, bad=False, inf=0):
+    def __init__(self, r, bad=False, inf=0, err=None):
         if isinstance(r, (int, float)) and not isinstance(r, bool):
             r = Fraction(r)
         self.r = r
         self.bad = bad
         self.inf = inf      # +1 / -1: the constant +-infinity (only Min/Max use it; arithmetic on it is not modelled)
+        self.err = err      # rounding mode only: a term bounding |computed double - r| (None = exact / not tracked)
 
     def __repr__(self):
         if self.inf:
@@ -132,7 +133,48 @@ def real_div(x, y):
     return x / y
 
 
+# Rounding mode: when ROUND["on"], every float operation also propagates a rigorous bound on the rounding error of the
+# computed double with respect to the exact real value r (standard model: fl(x op y) = (x op y)(1 + d), |d| <= u = 2^-53,
+# no underflow). Used for accuracy claims about short straight-line kernels (with_const_width).
+ROUND = {"on": False}
+U53 = Fraction(1, 2 ** 53)
+
+
+def r_abs(x):
+    if not is_sym(x):
+        return abs(x)
+    return z3.If(x >= 0, x, -x)
+
+
+def f_arith_round(op, a, b):
+    exact = f_arith_exact(op, a, b)
+    ea = a.err if a.err is not None else 0
+    eb = b.err if b.err is not None else 0
+    ra, rb, r = a.r, b.r, exact.r
+    R_ = lambda v: to_real(v) if is_sym(v) or True else v
+    u = to_real(U53)
+    if op in ("Add", "Sub"):
+        inh = to_real(ea) + to_real(eb)
+    elif op == "Mul":
+        inh = r_abs(to_real(ra)) * to_real(eb) + r_abs(to_real(rb)) * to_real(ea) + to_real(ea) * to_real(eb)
+    elif op == "Div":
+        if not (eb == 0 or (not is_sym(eb) and eb == 0)):
+            raise Unsupported("rounding analysis: division by an inexact value")
+        inh = to_real(ea) / r_abs(to_real(rb))
+    else:
+        raise Unsupported("rounding analysis: " + op)
+    err = inh + u * (r_abs(to_real(r)) + inh)
+    exact.err = err
+    return exact
+
+
 def f_arith(op, a, b):
+    if ROUND["on"]:
+        return f_arith_round(op, a, b)
+    return f_arith_exact(op, a, b)
+
+
+def f_arith_exact(op, a, b):
     if a.inf or b.inf:
         raise Unsupported("arithmetic on an infinite constant")
     bad = b_or(a.bad, b.bad)
